@@ -419,6 +419,18 @@ Proof. split; [vm_compute; reflexivity | cbn; auto]. Qed.
 Example parse_toks_ser_hyps :
   wf sample = true /\ rest_ok [TInt 12; TInt 0; TName name_R; TArrE; TEof] = true
   /\ ahead_ok (tokcls sample) [TInt 12; TInt 0; TName name_R; TArrE; TEof] = true
-  /\ ahead_ok (tokcls (OInt 10000000)) [TInt 12; TInt 0; TName name_R; TArrE; TEof] = true
-  /\ ahead_ok (tokcls (OInt 3)) [TInt 12; TInt 70000; TName name_R; TArrE; TEof] = true.
+  /\ ahead_ok (tokcls (OInt 10000000)) [TInt 12; TName name_R; TArrE; TEof] = true
+  /\ ahead_ok (tokcls (OInt 3)) [TInt 70000; TName name_R; TArrE; TEof] = true.
 Proof. vm_compute. repeat split. Qed.
+
+(** * Link to the correspondence verdict: on a [wf] value the checker of channel [ser] can never
+    report "model agrees with the implementation, property fails" (code 2): whenever the
+    implementation's bytes and parse result equal the model's, the property bit is clear. *)
+Theorem ser_code_not_2 : forall v bs p, wf v = true -> ser_code (v, bs, p) <> 2.
+Proof.
+  intros v bs p W. unfold ser_code.
+  destruct (bytes_eqb (ser raw_name v) bs) eqn:E1.
+  - apply bytes_eqb_eq in E1. subst bs. rewrite (ser_parse_roundtrip v W). cbn [option_map andb].
+    destruct (opobj_eqb (Some (canon (norm v))) p); intro H; vm_compute in H; discriminate.
+  - cbn [andb]. destruct (opobj_eqb (Some (canon (norm v))) p); intro H; vm_compute in H; discriminate.
+Qed.
